@@ -468,6 +468,10 @@ func run(tier string, shard, nsh int, res *ev.Result) {
 	}
 	var jobs []func(lc *local)
 	var windows int64
+	if shard == 0 {
+		var lc local
+		earlyProbe(res, &lc) // before anything else has been decoded in this process: see there
+	}
 	// value sweep: every 16-bit register value through every 16-bit / 8-bit / bit accessor; boundary 32- and 64-bit values
 	// through the wide accessors with every documented order; every byte value in strings
 	for chunk := 0; chunk < 16; chunk++ {
@@ -640,4 +644,57 @@ func main() {
 			"only the seven documented byte/word order values 0,1,2,5,6,9,10 are enumerated", "string convention (swap within register for big-endian orders, NUL terminates, bytes become runes) taken from the library's pinned tests"},
 		Run: run, Replay: replay,
 	})
+}
+
+// earlyProbe: pairs of DIFFERENT reads of the SAME registers, made one after the other on one view, on bytes nothing else
+// in this check uses, as the first thing the process does. Every other evaluation of this check is independent of the
+// order in which evaluations happen only if the library keeps no state between reads; state that outlives a view (a
+// process-wide cache keyed by the register bytes but not by everything that matters - the string length's parity, the
+// accessor, the order - possibly admitting only its first N entries) is visible exactly here.
+func earlyProbe(res *ev.Result, lc *local) {
+	k := 0
+	fresh := func(n int) []byte {
+		k++
+		d := make([]byte, n)
+		for i := range d {
+			d[i] = byte(0x80 + (k*11+i*37)%0x7F)
+		}
+		return d
+	}
+	type acc struct {
+		name  string
+		order uint8
+		len   int
+	}
+	var strs, nums []acc
+	for _, o := range []uint8{spec.OrdBE, spec.OrdLE} {
+		for l := 1; l <= 8; l++ {
+			strs = append(strs, acc{"StringWithByteOrder", o, l})
+		}
+	}
+	for _, o := range []uint8{spec.OrdBE | spec.OrdHighWordFirst, spec.OrdLE | spec.OrdLowWordFirst} {
+		for _, a := range []string{"Uint32WithByteOrder", "Int32WithByteOrder", "Float32WithByteOrder", "Uint64WithByteOrder", "Int64WithByteOrder", "Float64WithByteOrder"} {
+			nums = append(nums, acc{a, o, 0})
+		}
+	}
+	nums = append(nums, acc{"Uint16", 0, 0}, acc{"Int16", 0, 0}, acc{"Register", 0, 0}, acc{"Uint32", 0, 0}, acc{"Uint64", 0, 0})
+	pair := func(a, b acc) {
+		w := newValueWindow(100, fresh(8), 0, res)
+		if w == nil {
+			return
+		}
+		for _, x := range []acc{a, b} {
+			w.eval(Case{Acc: x.name, Addr: 100, Order: x.order, Len: x.len}, res, lc)
+		}
+	}
+	for _, a := range strs {
+		for _, b := range strs {
+			pair(a, b)
+		}
+	}
+	for _, a := range nums {
+		for _, b := range nums {
+			pair(a, b)
+		}
+	}
 }
